@@ -137,6 +137,16 @@ class PatternRewriter(Builder, PatternRewriterListener):
         self.has_done_action = True
         return super().insert(op, insertion_point)
 
+    def create_block(
+        self, insert_point: BlockInsertPoint, arg_types: Iterable[Attribute] = ()
+    ) -> Block:
+        """
+        Create a block at the given location, and set the operation insertion point
+        at the end of the inserted block.
+        """
+        self.has_done_action = True
+        return super().create_block(insert_point, arg_types)
+
     def erase(self, op: Operation, safe_erase: bool = True):
         """
         Erase an operation.
